@@ -527,11 +527,13 @@ fn display_interpolation(
                     .as_str()
             }
             pr::InterpolateItem::Expr { expr, format } => {
+                // the expression and its format are inside the string literal as well
+                let escape = |s: &str| s.replace('\\', "\\\\").replace('"', "\\\"");
                 r += "{";
-                r += &expr.write(opt.clone())?;
+                r += &escape(&expr.write(opt.clone())?);
                 if let Some(format) = format {
                     r += ":";
-                    r += format;
+                    r += &escape(format);
                 }
                 r += "}"
             }
